@@ -123,6 +123,13 @@ def stateBefore (pages : List Page) : Nat → Option PState
 /-- All rows of the first `k` pages. -/
 def rowsBefore (pages : List Page) (k : Nat) : List Row := ((pages.take k).map Prod.fst).flatten
 
+/-- The constructor failed BEFORE the first fetch (`PartitionKeyError`, pager.rs 949-958 / 1104-1111:
+partition key extraction / token calculation on the bound values): no request, no pager, no task. -/
+def initFailed (pages : List Page) (faults : List Attempt) (e : String) : St :=
+  { pc := .done, todo := pages, faults := faults, served := 0, log := [], chan := none, rx := .unbuilt,
+    cur := [], delivered := [], errs := [], ended := false, ctorErr := some e,
+    taken := 0, lost := servedRows pages, ignored := false }
+
 def init (pages : List Page) (faults : List Attempt) : St :=
   { pc := .first, todo := pages, faults := faults, served := 0, log := [], chan := none, rx := .unbuilt,
     cur := [], delivered := [], errs := [], ended := false, ctorErr := none,
@@ -274,7 +281,10 @@ answers `UNPREPARED` by re-preparing and sending the EXECUTE once more with the 
 second `UNPREPARED` is returned as the error). Server faults per page, as scripted by the harness:
 `u` UNPREPARED, `o` Overloaded (0x1001), `r` ReadTimeout (0x1200), `s` ServerError (0x0000),
 `c` connection closed instead of a response, `T` response later than the request timeout,
-`v` a RESULT/Void instead of rows (page_from_outcome 628-633), `d` a short delay (harmless). -/
+`v` a RESULT/Void instead of rows (page_from_outcome 628-633), `d` a short delay (harmless),
+`X` (first page only) the caller drops the constructor future while the first response is outstanding:
+no pager exists and no task was spawned (1124-1149 happen on the caller's task), which for the page loop
+is the same as a final failure of the first attempt - the request was sent, nothing follows. -/
 def connAttempts (afterUnprepared : Bool) : List Char → List Attempt
   | [] => [.ok]
   | 'u' :: rest =>
@@ -287,6 +297,7 @@ def connAttempts (afterUnprepared : Bool) : List Char → List Attempt
   | 'c' :: _ => [.fail "Broken"]
   | 'T' :: _ => [.fail "Timeout"]
   | 'v' :: _ => [.fail "UnexpectedResponse"]
+  | 'X' :: _ => [.fail "Cancelled"]
   | _ :: rest => connAttempts afterUnprepared rest
 
 /-! ### The session pager's attempts (`Session::execute_iter`) on a ONE-node cluster, default profile
@@ -299,7 +310,10 @@ that re-sends the page request is `RetrySameTarget` for a ReadTimeout with enoug
 (`R`), at most once per page (a new retry session per page). UNPREPARED is handled inside an attempt as
 for the single-connection pager. A non-Rows RESULT (`v`) is an error on pages 2+ (process_next_page
 490-494) but on the FIRST page it yields an empty stream without error (process_first_page 436-454) -
-the same transition as an ignored error, so it is represented by `Attempt.ignore`. -/
+the same transition as an ignored error, so it is represented by `Attempt.ignore`. `k` / `K`: the
+first response is RESULT/SetKeyspace; `new_from_first_page` (1176-1194) makes the session `USE` the
+keyspace on its connections and then returns the empty stream (`k`), or returns the `USE` failure as the
+constructor's error (`K`). `X`: the constructor future is dropped (see `connAttempts`). -/
 def sessAttempts (firstPage afterUnprepared readRetried : Bool) : List Char → List Attempt
   | [] => [.ok]
   | 'u' :: rest =>
@@ -313,6 +327,9 @@ def sessAttempts (firstPage afterUnprepared readRetried : Bool) : List Char → 
   | 'c' :: _ => [.fail "Broken"]
   | 'T' :: _ => [.fail "Timeout"]
   | 'v' :: _ => if firstPage then [.ignore] else [.fail "UnexpectedResponse"]
+  | 'k' :: _ => if firstPage then [.ignore] else [.fail "UnexpectedResponse"]
+  | 'K' :: _ => if firstPage then [.fail "UseKeyspace"] else [.fail "UnexpectedResponse"]
+  | 'X' :: _ => [.fail "Cancelled"]
   | _ :: rest => sessAttempts firstPage afterUnprepared readRetried rest
 
 /-! ### The session pager with `DowngradingConsistencyRetryPolicy` on an idempotent statement
